@@ -16,7 +16,7 @@
     PARTIAL: HTTP, JSON, dpath, PyYAML and pytest are outside these theorems; the tie to the
     code is the correspondence run of harness/c20.py. *)
 From Coq Require Import ZArith QArith Qabs List Bool String.
-From Verif Require Import Base Cal Period Param Engine EngineProofs Api ApiSpec ApiProofs.
+From Verif Require Import Base Cal Period Param Engine EngineProofs Api ApiSpec ApiProofs ApiListingProofs.
 Import ListNotations.
 Open Scope string_scope.
 
@@ -285,3 +285,50 @@ Example ex_expectations :
     (mk_ytest (Some "2018") [("persons", YD [("alice", YD [("salary", YD [("2018-01", YL (Num 14))])])])] MNone MNone)
   = Ok [mk_exp "salary" (Some "2018-01") (Some 1%nat) [Num 14]].
 Proof. vm_compute. reflexivity. Qed.
+
+
+(** * GET /variable/<id> (appended)
+
+    For a variable as Variable.__init__ accepts it ([well_formed_variable]: valid start
+    dates in ascending order, none after the end date) and every valid day [d]: the formula
+    the listing shows as in force on [d] - the entry with the greatest listed date on or
+    before [d], the day-after-end entry (null) hiding every formula from then on - is exactly
+    the formula the engine takes for a period starting on [d] ([Engine.formula_at], i.e.
+    Variable.get_formula; C01 [formula_in_force] says which one that is); the ISO-keyed
+    listing is that dated list, and the listed default value, value type, definition period
+    and entity are the variable's. *)
+Theorem variable_listing_in_force : forall x p, well_formed_variable x -> valid (p_start p) ->
+  formula_at x p = Ok (listing_in_force (api_variable_formula_dates x) (p_start p))
+  /\ a_formulas (api_variable x)
+     = map (fun e => (iso_date (fst e), match snd e with Some _ => true | None => false end))
+           (api_variable_formula_dates x)
+  /\ a_default (api_variable x) = api_default_value x
+  /\ a_value_type (api_variable x) = formatted_type (v_type x)
+  /\ a_definition_period (api_variable x) = unit_upper (v_unit x)
+  /\ a_entity (api_variable x) = entity_key (v_ent x).
+Proof. exact variable_listing. Qed.
+Print Assumptions variable_listing_in_force.
+
+Definition ex_listed : var :=
+  mk_var EPerson TFloat Month (Some (2019, 6, 30)%Z)
+         [((1, 1, 1)%Z, EConst 1); ((2016, 1, 1)%Z, EConst 2); ((2018, 6, 1)%Z, EConst 3)] (-2)%Z false false.
+
+Example ex_variable_listing :
+  a_formulas (api_variable ex_listed)
+  = [("0001-01-01", true); ("2016-01-01", true); ("2018-06-01", true); ("2019-07-01", false)]
+  /\ a_default (api_variable ex_listed) = Flt (inject_Z (-2))
+  /\ a_value_type (api_variable ex_listed) = "Float" /\ a_definition_period (api_variable ex_listed) = "MONTH"
+  /\ a_entity (api_variable ex_listed) = "person"
+  /\ listing_in_force (api_variable_formula_dates ex_listed) (2018, 5, 31)%Z = Some (EConst 2)
+  /\ listing_in_force (api_variable_formula_dates ex_listed) (2019, 6, 30)%Z = Some (EConst 3)
+  /\ listing_in_force (api_variable_formula_dates ex_listed) (2019, 7, 1)%Z = None
+  /\ formula_at ex_listed (Month, (2019, 7, 1)%Z, 1%Z) = Ok None.
+Proof. vm_compute. repeat split; reflexivity. Qed.
+
+Example ex_listed_well_formed : well_formed_variable ex_listed.
+Proof.
+  repeat split; cbn.
+  - repeat constructor.
+  - repeat constructor.
+  - repeat constructor.
+Qed.
